@@ -240,7 +240,7 @@ func StartValidator(script string) (*Validator, error) {
 		}
 	}
 	cmd := exec.Command(py, script)
-	cmd.Stderr = os.Stderr
+	cmd.Stderr = nil // never inherit the parent's pipes
 	in, err := cmd.StdinPipe()
 	if err != nil {
 		return nil, err
